@@ -26,13 +26,34 @@ def shared_config_probe(name):
     return {"name": name, "unchanged": trace._dump(cfg) == before, "before": before, "after": trace._dump(cfg), "ran": out}
 
 
+def shared_es_probe(name):
+    """one EarlyStopping object (fields left None / set) placed in a configuration: after optimize() — returning or raising — the caller's object is as it was"""
+    import warnings
+    from pyvolutionary.models import EarlyStopping
+    warnings.filterwarnings("ignore")
+    out = {"name": name, "unchanged": True, "before": None, "after": None}
+    for kw in ({"patience": None, "min_delta": None}, {"patience": 2, "min_delta": None}, {"patience": None}, {"patience": 2, "min_delta": 0.5}):
+        es = EarlyStopping(**kw)
+        before = trace._dump(es)
+        try:
+            cfg = optimizers.config_for(name, max_cycles=3, fitness_error=None, early_stopping=es)
+        except Exception:  # noqa
+            continue
+        job = {"name": name, "specs": [{"k": "contMulti", "lbs": [-5.0, -5.0], "ubs": [5.0, 5.0]}], "objective": "sphere", "minmax": "min", "seed": 3, "mode": "serial", "trace": False}
+        trace.run_traced(job, opt=optimizers.OPTS[name](cfg))
+        after = trace._dump(es)
+        if after != before and out["unchanged"]:
+            out.update(unchanged=False, before=before, after=after)
+    return out
+
+
 def run(ctx):
     ctx.prove(MODULES)
     ctx.suites_run.append(oracles.SUITE)
     rng = ctx.rng
     n = 8 if not ctx.thorough else 40
     ctx.rule("all exported optimizers × tasks (continuous regimes, multi-objective with weights, integer-coded pairs, tasks whose objective raises part-way) × configs (incl. every accepted candidate value of every algorithm parameter, reversed ranges included) × seeds × serial/thread/process: "
-             "deep dump of config and task before and after every optimize(), returning or raising; plus one shared-config probe per class; a case = one run; non-trivial = all")
+             "deep dump of config and task before and after every optimize(), returning or raising; plus one shared-config probe per class and shared EarlyStopping objects (fields set / left None); a case = one run; non-trivial = all")
     js = jobs.make_jobs(rng, optimizers.names(), trace.CONT_KINDS + ["multiobj", "mixed", "perm", "disc"], n,
                         modes=("serial", "serial", "thread", "process"), max_cycles_choices=(1, 2, 3, 5), pop_scales=(1, 1.5), vary_params=0.5, multi=True, trace_events=False)
     # systematic: every accepted candidate value of every algorithm parameter once (incl. reversed ranges)
@@ -48,10 +69,19 @@ def run(ctx):
             specs = [{"k": first, "lbs": [-5.0] * k, "ubs": [5.0] * k}, {"k": "disc", "n": 3, "pool": 1}, {"k": "cont", "lb": 0.0, "ub": 2.0}]
             js.append({"name": name, "kind": "multi-first-mixed", "specs": specs, "objective": rng.choice(["sphere", "linear"]), "minmax": rng.choice(["min", "max"]),
                        "seed": rng.randrange(1, 10 ** 6), "cfg": {"max_cycles": 2, "fitness_error": None}, "mode": "serial", "trace": False})
+    # early-stopping records are part of the caller's configuration too: set, defaulted ({}), and with a field left None (accepted by the validator)
+    for name in optimizers.names():
+        for es in rng.sample([{"patience": None}, {"min_delta": None}, {"patience": None, "min_delta": None}, {}, {"patience": 2, "min_delta": 0.01}, {"patience": 1, "min_delta": 10.0}], 2 if not ctx.thorough else 6):
+            js.append({"name": name, "kind": "early-stopping", "specs": trace.task_specs(rng, "cont-sym", 2), "objective": "sphere", "minmax": rng.choice(["min", "max"]), "seed": rng.randrange(1, 10 ** 6),
+                       "cfg": {"max_cycles": 4, "fitness_error": rng.choice([None, 0.5]), "early_stopping": es}, "mode": "serial", "trace": False})
     results = pmap(trace.run_traced, js)
     for r in results:
         ctx.case(repr(oracles.job_key(r["job"])), kind=f"{r['job']['kind']}:{r['job']['mode']}:{'ok' if 'result' in r else 'raised'}")
     oracles.check_c09(ctx, results)
+    for p in pmap(shared_es_probe, rng.sample(optimizers.names(), 8 if not ctx.thorough else 40)):
+        ctx.case(("shared-early-stopping", p["name"]), kind="shared-early-stopping-probe")
+        if not p["unchanged"]:
+            ctx.fail(f"C09/{p['name']}/configuration-modified/early_stopping", f"the caller's EarlyStopping object changed: {p['before']} -> {p['after']}", oracles.SUITE, {"probe": "shared-es", "name": p["name"]})
     probes = pmap(shared_config_probe, optimizers.names())
     for p in probes:
         ctx.case(("shared-config", p["name"]), kind="shared-config-probe")
@@ -64,6 +94,10 @@ def run(ctx):
 def replay(case):
     import json
     c = case["case"]
+    if c.get("probe") == "shared-es":
+        p = shared_es_probe(c["name"])
+        print(json.dumps(p, indent=1, default=str))
+        return 0 if p["unchanged"] else 1
     if c.get("probe") == "shared-config":
         p = shared_config_probe(c["name"])
         print(json.dumps({k: p[k] for k in ("name", "unchanged", "ran")}, indent=1))
